@@ -114,6 +114,10 @@ def body_topology(ctx, sizes, with_edges):
 
 
 ENCODINGS = [dict(start_index=s, fill=f, transposed=t) for s in (0, 1) for f in ('nan', 'attr') for t in (False, True)]
+# integer tables of other types and fill values: unsigned with the largest value / zero as fill, signed with 0 or -1
+ENCODINGS += [dict(start_index=1, fill='attr', fill_value=0, dtype='uint16'), dict(start_index=0, fill='attr', fill_value=65535, dtype='uint16'),
+              dict(start_index=1, fill='attr', fill_value=0, dtype='int32', transposed=True), dict(start_index=0, fill='attr', fill_value=-1, dtype='int64'),
+              dict(start_index=1, fill='attr', fill_value=0, dtype='uint32'), dict(start_index=1, fill='nan', fill_value=0, dtype='int16')]
 
 
 def body_encoding(ctx, mesh, supply, coords_as_coords, edge_order, two_name='Two', fill_first=False):
@@ -149,7 +153,7 @@ def body_encoding(ctx, mesh, supply, coords_as_coords, edge_order, two_name='Two
         ds = lead.merge(ds).assign_attrs(ds.attrs)
     topo, ref = Mesh2DTopology(ds), Mesh2DTopology(base)
     ctx.check(rows(topo.face_node_array) == [list(f) for f in faces], 'face-node table normalised to zero-based, face dimension first, fill masked')
-    ctx.check(topo.face_node_array.dtype.kind == 'i', 'normalised table has an integer type')
+    ctx.check(topo.face_node_array.dtype.kind in 'iu', 'normalised table has an integer type')
     ctx.check(topo.face_dimension == 'nface' and topo.node_dimension == 'nnode' and topo.max_node_dimension == 'nmax',
               'dimensions discovered from the mesh attributes')
     edges_ref, edge_id = builders.mesh_edges(faces)
